@@ -20,7 +20,8 @@ def init_states(result, n, seed):
                     cell = a + 0x80          # cells live at the read port
                 for i in range(nb):
                     mem[cell + i] = rs.choice(INTERESTING) if rs.random() < 0.7 else rs.randrange(256)
-        out.append({"mem": mem, "a": rs.randrange(256), "x": rs.choice(INTERESTING), "y": rs.choice(INTERESTING)})
+        out.append({"mem": mem, "a": rs.randrange(256), "x": rs.choice(INTERESTING), "y": rs.choice(INTERESTING),
+                    "p": rs.choice([0, 1, 2, 3, 128, 129, 64, 195])})      # flags on entry: N=128 V=64 Z=2 C=1
     return out, (env, init, ports, regions)
 
 
@@ -53,7 +54,7 @@ def run_all(model, pid, result, states, layout_, which="code", fuel=20000, entry
     w = watch_list(regions)
     outs = []
     for st in states:
-        r = prog.run(model, pid, entry=entry, mem=st["mem"], a=st["a"], x=st["x"], y=st["y"], fuel=fuel, watch=w)
+        r = prog.run(model, pid, entry=entry, mem=st["mem"], a=st["a"], x=st["x"], y=st["y"], p=st.get("p", 0), fuel=fuel, watch=w)
         outs.append(r)
     return outs, None
 
